@@ -32,7 +32,7 @@ type c04item struct {
 	key bool // starts a key frame
 }
 
-func c04RtpSeq(n, g int, idBase uint32) []c04item {
+func c04RtpSeq(n, g, slices int, idBase uint32) []c04item {
 	out := make([]c04item, 0, n)
 	var vseq, aseq uint16
 	vcount := 0
@@ -47,9 +47,18 @@ func c04RtpSeq(n, g int, idBase uint32) []c04item {
 		if key {
 			typ = 5
 		}
-		out = append(out, c04item{p: kit.MakeRTP(kit.ChVideo, 96, true, vseq, uint32(i)*3000+7, idBase, kit.H264NAL(2, typ, 30+i%40, uint64(i))), key: key})
+		ts := uint32(i)*3000 + 7
+		out = append(out, c04item{p: kit.MakeRTP(kit.ChVideo, 96, !(key && slices > 1), vseq, ts, idBase, kit.H264NAL(2, typ, 30+i%40, uint64(i))), key: key})
 		vseq++
 		vcount++
+		if key {
+			// further slices of the same key picture: same RTP timestamp, NOT the start of a key frame
+			for k := 1; k < slices && len(out) < n; k++ {
+				i++
+				out = append(out, c04item{p: kit.MakeRTP(kit.ChVideo, 96, k == slices-1, vseq, ts, idBase, kit.H264NAL(2, 5, 30+i%40, uint64(i)))})
+				vseq++
+			}
+		}
 	}
 	return out
 }
@@ -99,6 +108,134 @@ func (s *stallConsumer) Consume(p format.Packet) {
 
 var c04pathSeq int64
 
+// tokenConsumer consumes one packet per token once gating is switched on.
+type tokenConsumer struct {
+	kit.RecConsumer
+	tokens chan struct{}
+}
+
+func (t *tokenConsumer) Consume(p format.Packet) {
+	<-t.tokens
+	t.RecConsumer.Consume(p)
+}
+
+// c04Directed drives the backlog to exactly the limit at the first slice of a multi-slice key picture (drop must not
+// begin at the second slice) and lets the backlog fall below the limit between two slices (drop must not end there).
+func c04Directed(c *kit.Ctx, codecName string, cacheOn bool, slices int, rep int) {
+	config.VerifSet(false, cacheOn, "", 5)
+	sdp := kit.SDPH264AAC
+	if codecName == "H265" {
+		sdp = kit.SDPH265AAC
+	}
+	s := media.NewStream(fmt.Sprintf("/c04/d%d", atomic.AddInt64(&c04pathSeq, 1)), sdp)
+	defer s.Close()
+	scen := fmt.Sprintf("directed/%s/cache=%v/slices=%d", codecName, cacheOn, slices)
+	c.Pre("C04 " + scen)
+	tc := &tokenConsumer{tokens: make(chan struct{}, 100000)}
+	cid := s.StartConsumeNoGopCache(tc, media.RTPPacket, "token")
+	var seq []c04item
+	var vseq uint16
+	ts := uint32(1000)
+	nal := func(key bool, id int) []byte {
+		if codecName == "H265" {
+			t := byte(1)
+			if key {
+				t = 19
+			}
+			return kit.H265NAL(t, 1, 40, uint64(id))
+		}
+		t := byte(1)
+		if key {
+			t = 5
+		}
+		return kit.H264NAL(2, t, 40, uint64(id))
+	}
+	pub := func(key bool, newPicture bool, start bool) {
+		if newPicture {
+			ts += 3000
+		}
+		p := kit.MakeRTP(kit.ChVideo, 96, true, vseq, ts, 3, nal(key, len(seq)))
+		vseq++
+		seq = append(seq, c04item{p: p, key: start})
+		s.WriteRtpPacket(p)
+	}
+	keyPicture := func(between func()) {
+		for k := 0; k < slices; k++ {
+			pub(true, k == 0, k == 0)
+			if k == 0 && between != nil {
+				between()
+			}
+		}
+	}
+	qlen := func() int { q, _, _ := media.VerifQueueState(s, cid); return q }
+	// phase A: backlog exactly at the limit when the first slice of a key picture arrives
+	keyPicture(nil)
+	for qlen() < 1000 {
+		pub(false, true, false)
+	}
+	keyPicture(nil) // first slice sees 1000 (not above the limit): nothing may be dropped from this picture
+	for i := 0; i < 30; i++ {
+		pub(false, true, false)
+	}
+	keyPicture(nil) // backlog above the limit at a key-frame start: dropping begins here (aligned)
+	for i := 0; i < 30; i++ {
+		pub(false, true, false)
+	}
+	// phase B: still dropping; the backlog falls below the limit between the first and the second slice
+	keyPicture(func() {
+		for i := 0; i < 200; i++ {
+			tc.tokens <- struct{}{}
+		}
+		waitUntil(func() bool { return tc.Len() >= 200 }, 20*time.Second)
+	})
+	for i := 0; i < 20; i++ {
+		pub(false, true, false)
+	}
+	keyPicture(nil) // aligned end of the drop at the latest here
+	for i := 0; i < 10; i++ {
+		pub(false, true, false)
+	}
+	// drain
+	for i := 0; i < len(seq)+10; i++ {
+		tc.tokens <- struct{}{}
+	}
+	waitUntil(func() bool { return qlen() == 0 }, 30*time.Second)
+	time.Sleep(5 * time.Millisecond)
+	byPtr := map[format.Packet]int{}
+	for i, it := range seq {
+		byPtr[it.p] = i
+	}
+	c.Eval(1)
+	c.Distinct(scen)
+	c.SetAdd("directed_scenarios", scen)
+	detail := map[string]interface{}{"scenario": scen, "rep": rep, "packets": len(seq)}
+	last := -1
+	gaps := 0
+	for _, it := range tc.Items() {
+		k, ok := byPtr[it.Pack]
+		if !ok {
+			continue
+		}
+		if k != last+1 {
+			gaps++
+			detail["gap"] = []int{last + 1, k}
+			if !seq[last+1].key {
+				c.Violation("C04:drop-begins-mid-gop", detail)
+				return
+			}
+			if !seq[k].key {
+				c.Violation("C04:drop-ends-mid-gop", detail)
+				return
+			}
+		}
+		last = k
+	}
+	c.Count("directed_gaps_observed", int64(gaps))
+	if gaps == 0 {
+		c.Inconclusive("directed scenario produced no drop: " + scen)
+	}
+}
+
 func runC04(c *kit.Ctx) {
 	kit.InstallHooks()
 	gs := []int{1, 2, 7, 30, 250, 999, 1000, 1001, 3000, 0}
@@ -111,6 +248,7 @@ func runC04(c *kit.Ctx) {
 		g := gs[pi%len(gs)]
 		flvMode := (pi/len(gs))%4 == 3
 		cacheOn := (pi/len(gs))%2 == 1 && !flvMode
+		slices := 1 + (pi/3)%3 // 1..3 slices per key picture
 		n := 2500 + rng.Intn(c.Pick(2500, 15000))
 		if g >= 999 {
 			n += 2 * g
@@ -119,7 +257,7 @@ func runC04(c *kit.Ctx) {
 		if flvMode {
 			seq = c04FlvSeq(n, g)
 		} else {
-			seq = c04RtpSeq(n, g, uint32(pi)+1)
+			seq = c04RtpSeq(n, g, slices, uint32(pi)+1)
 		}
 		byPtr := map[format.Packet]int{}
 		for i, it := range seq {
@@ -141,7 +279,7 @@ func runC04(c *kit.Ctx) {
 		if flvMode {
 			pt = media.FLVPacket
 		}
-		scen := fmt.Sprintf("G=%d/flv=%v/cache=%v", g, flvMode, cacheOn)
+		scen := fmt.Sprintf("G=%d/flv=%v/cache=%v/slices=%d", g, flvMode, cacheOn, slices)
 		c.Pre(fmt.Sprintf("C04 pattern %d %s n=%d", pi, scen, n))
 
 		healthy := &kit.RecConsumer{}
@@ -244,7 +382,11 @@ func runC04(c *kit.Ctx) {
 			continue
 		}
 		// quiescence: healthy consumer has everything; stalled consumer has drained its queue
-		okH := waitUntil(func() bool { return healthy.Len() >= n }, 30*time.Second)
+		okH := waitUntil(func() bool {
+			q, _, ok := media.VerifQueueState(s, hcid)
+			return healthy.Len() >= n || (ok && q == 0 && healthy.Len() > 0)
+		}, 30*time.Second)
+		time.Sleep(5 * time.Millisecond) // the last popped packet may still be inside Consume
 		okS := waitUntil(func() bool {
 			q, _, ok := media.VerifQueueState(s, scid)
 			return !ok || q == 0
@@ -339,6 +481,20 @@ func runC04(c *kit.Ctx) {
 		// short stalls must not lose anything: if the queue never exceeded the limit, no gap may exist
 		if mq <= 1000 && gaps > 0 {
 			c.Violation("C04:dropped-although-backlog-never-exceeded-limit", detail)
+		}
+	}
+	// directed alignment scenarios (multi-slice key pictures, backlog crossing the limit between two slices)
+	di := 0
+	for rep := 0; rep < c.Pick(1, 10); rep++ {
+		for _, codecName := range []string{"H264", "H265"} {
+			for _, cacheOn := range []bool{false, true} {
+				for _, slices := range []int{1, 2, 3} {
+					di++
+					if c.Mine(di) {
+						c04Directed(c, codecName, cacheOn, slices, rep)
+					}
+				}
+			}
 		}
 	}
 	config.VerifSet(false, false, "", 5)
